@@ -436,11 +436,21 @@ fn except_inner(
         if !all_in(&top, join_left) || !all_in(&bottom, join_right) {
             continue;
         }
+        // ... pairing the columns position by position, and nothing else
+        if !is_exact_pairing(&top, &bottom, join_cond) {
+            continue;
+        }
 
         // filter has to check for nullability of bottom
         // (this could be loosened to check only for nulls in a previously non-nullable column)
         let (filter_left, filter_right) = collect_equals(filter)?;
-        if !(all_in(&bottom, filter_left) && all_null(filter_right)) {
+        if !(all_in(&bottom, filter_left.clone()) && all_null(filter_right)) {
+            continue;
+        }
+        // ... and nothing else
+        let n_tests = filter_left.len();
+        let tested = col_refs(filter_left);
+        if !only_equals(filter) || tested.len() != n_tests || !tested.iter().all(|c| bottom.contains(c)) {
             continue;
         }
 
@@ -539,6 +549,10 @@ fn intersect_inner(
         if !(all_in(&top, left) && all_in(&bottom, right)) {
             continue;
         }
+        // ... pairing the columns position by position, and nothing else
+        if !is_exact_pairing(&top, &bottom, join_cond) {
+            continue;
+        }
 
         // select must not contain things from bottom
         if bottom.iter().any(|c| output.contains(c)) {
@@ -596,6 +610,36 @@ fn intersect_inner(
     }
 
     Ok(res)
+}
+
+/// True if expr is made of `==` and `&&` only.
+fn only_equals(expr: &Expr) -> bool {
+    match &expr.kind {
+        ExprKind::Operator { name, args } if name == "std.eq" && args.len() == 2 => true,
+        ExprKind::Operator { name, args } if name == "std.and" && args.len() == 2 => {
+            only_equals(&args[0]) && only_equals(&args[1])
+        }
+        _ => false,
+    }
+}
+
+/// True if cond is exactly `top[0] == bottom[0] && top[1] == bottom[1] && ...` (in any order).
+fn is_exact_pairing(top: &[CId], bottom: &[CId], cond: &Expr) -> bool {
+    if !only_equals(cond) || top.len() != bottom.len() {
+        return false;
+    }
+    let Ok((lefts, rights)) = collect_equals(cond) else {
+        return false;
+    };
+    let n = lefts.len();
+    let (lefts, rights) = (col_refs(lefts), col_refs(rights));
+    if lefts.len() != n || rights.len() != n {
+        return false; // an operand that is not a column
+    }
+    let pairs: Vec<(CId, CId)> = std::iter::zip(lefts, rights).collect();
+    let expected: Vec<(CId, CId)> =
+        std::iter::zip(top.iter().cloned(), bottom.iter().cloned()).collect();
+    pairs.iter().all(|p| expected.contains(p)) && expected.iter().all(|p| pairs.contains(p))
 }
 
 /// Returns true if all cids are in exprs
